@@ -266,6 +266,12 @@ func (c *conn) handleMutate(in *inEnvelope) error {
 	c.mu.Lock()
 	defer c.mu.Unlock()
 
+	// Mutations share the id table with subscriptions: reusing a live id would
+	// overwrite its rerunner, which could then never be stopped.
+	if _, ok := c.subscriptions[id]; ok {
+		return NewSafeError("duplicate subscription")
+	}
+
 	tags := map[string]string{"url": c.url, "query": mutate.Query, "queryVariables": mustMarshalJson(mutate.Variables), "id": id}
 
 	query, err := Parse(mutate.Query, mutate.Variables)
